@@ -68,6 +68,7 @@ pub fn source_name(s: Source) -> String {
         Source::Range { .. } => "Range".into(),
         Source::RangeIter { .. } => "RangeIter".into(),
         Source::Endless { .. } => "Endless".into(),
+        Source::NestedCopied { .. } => "NestedCopied".into(),
         s => format!("{:?}", s),
     }
 }
